@@ -12,17 +12,17 @@ WS = "aiohttp/_websocket/reader_py.py"
 SR = "StreamReader"
 
 OWN = {
-    "_buffer": ["__init__", "feed_data", "unread_data", "_read_nowait_chunk"],
-    "_buffer_offset": ["__init__", "unread_data", "_read_nowait_chunk"],
-    "_size": ["__init__", "feed_data", "unread_data", "_read_nowait_chunk"],
-    "_cursor": ["__init__", "unread_data", "_read_nowait_chunk"],
+    "_buffer": ["__init__", "feed_data", "unread_data", "_unread_data", "_read_nowait_chunk"],
+    "_buffer_offset": ["__init__", "unread_data", "_unread_data", "_read_nowait_chunk"],
+    "_size": ["__init__", "feed_data", "unread_data", "_unread_data", "_read_nowait_chunk"],
+    "_cursor": ["__init__", "unread_data", "_unread_data", "_read_nowait_chunk"],
     "_http_chunk_splits": ["__init__", "begin_http_chunk_receiving", "end_http_chunk_receiving", "readchunk", "_read_nowait_chunk"],
     "_eof": ["__init__", "feed_eof"],
     "_exception": ["__init__", "set_exception"],
     "total_bytes": ["__init__", "feed_data"],
 }
 REASON = {
-    "__init__": "initial state", "feed_data": "the producer", "unread_data": "deprecated push-back", "_read_nowait_chunk": "the single consumption primitive",
+    "__init__": "initial state", "feed_data": "the producer", "unread_data": "deprecated push-back", "_unread_data": "push-back primitive (public unread_data(); bytes taken by a line/exact read that was interrupted while waiting)", "_read_nowait_chunk": "the single consumption primitive",
     "begin_http_chunk_receiving": "chunk bookkeeping (producer)", "end_http_chunk_receiving": "chunk bookkeeping (producer)", "readchunk": "consumes chunk marks",
     "feed_eof": "end of stream", "set_exception": "error",
 }
@@ -48,7 +48,7 @@ def run(chk):
     # ---- balance ----------------------------------------------------------------------------------------
     fd = repo.func(MOD, f"{SR}.feed_data")
     _balance(chk, fd, "data", [("self._size", "+"), ("self.total_bytes", "+")], "self._buffer.append(data)")
-    un = repo.func(MOD, f"{SR}.unread_data")
+    un = repo.cls(MOD, SR).methods.get("_unread_data") or repo.func(MOD, f"{SR}.unread_data")
     _balance(chk, un, "data", [("self._size", "+"), ("self._cursor", "-")], "self._buffer.appendleft(data)")
     rc = repo.func(MOD, f"{SR}._read_nowait_chunk")
     rets = [n for n in ast.walk(rc.node) if isinstance(n, ast.Return)]
@@ -84,6 +84,39 @@ def run(chk):
             chk.violation("C08.headoffset", heads[0], K.short(heads[0]), "self._buffer_offset",
                           f"{name}(): inspects the front buffer without its consumed-prefix offset: after a partial read the remainder is shorter than len(buffer[0]), so a size decision (e.g. `the head alone covers n bytes`) is wrong and a read stops short of a chunk boundary")
     chk.expect_count("C08.headoffset", nh, 3, "functions reading the front buffer")
+    # ---- singleton: EMPTY_PAYLOAD is one process-wide EmptyStreamReader used for every message without a body --------------------------------
+    # any state a method stores on it leaks from one message to the next
+    es = repo.cls(MOD, "EmptyStreamReader")
+    leaks = [(m, a) for m in es.methods.values() if m.name != "__init__" for a in ast.walk(m.node)
+             if isinstance(a, (ast.Assign, ast.AugAssign)) and any(isinstance(t, ast.Attribute) and norm.raw(t.value) == "self" for t in (a.targets if isinstance(a, ast.Assign) else [a.target]))]
+    if not leaks:
+        chk.ok("C08.singleton", es.node, "no method of EmptyStreamReader stores state on the shared EMPTY_PAYLOAD instance")
+    for m, a in leaks:
+        chk.violation("C08.singleton", a, K.short(a), f"no attribute store in EmptyStreamReader.{m.name}()",
+                      f"EmptyStreamReader.{m.name}() stores state on the instance, but EMPTY_PAYLOAD is a singleton shared by every body-less message: readchunk() returns the end-of-stream marker (b'', False) only on its first call ever; for the second body-less request of the process `async for ... in request.content.iter_chunks()` never ends and spins the event loop")
+    # ---- cancelsafe: a read that has taken bytes out of the buffer and is interrupted while waiting for more puts them back ---------------
+    for name, acc in (("readuntil", "chunk"), ("readexactly", "blocks")):
+        m = sr.methods.get(name)
+        if m is None:
+            continue
+        waits = [a for a in prog.awaits_in(m.node) if K.loop_ancestors(a)]
+        for a in waits:
+            hs = [h for _t, h in K.enclosing_try_handlers(a) if h.type is None or {"BaseException", "asyncio.CancelledError"} & set(PC.handler_types(h))]
+            if any(any(isinstance(c, ast.Call) and norm.raw(c.func) in ("self._unread_data", "self.unread_data") and acc in norm.raw(c) for c in ast.walk(h)) and isinstance(h.body[-1], ast.Raise) for h in hs):
+                chk.ok("C08.cancelsafe", a, f"{name}(): bytes already moved into `{acc}` are pushed back when the wait is interrupted")
+            else:
+                chk.violation("C08.cancelsafe", a, K.short(a, 50), f"except BaseException: self._unread_data({acc}...); raise",
+                              f"{name}() moves buffered bytes into the local `{acc}` and then waits for more; if that wait is cancelled (asyncio.wait_for timing out) the bytes are dropped: `event: par` + timeout + `tial\\n` makes the next readline() return `tial\\n`, ten received bytes are never returned and no error is set")
+    # ---- sepsplit: a multi-byte separator that straddles two buffered blocks is found -----------------------------------------------------
+    ru = sr.methods.get("readuntil")
+    if ru is not None:
+        finds = [c for c in prog.calls_in(ru.node) if isinstance(c.func, ast.Attribute) and c.func.attr == "find" and c.args and norm.raw(c.args[0]) == "separator"]
+        across = [c for c in finds if isinstance(c.func.value, ast.BinOp) or any(isinstance(x, ast.BinOp) and isinstance(x.op, ast.Add) for x in ast.walk(norm.subst(c.func.value, c)))]
+        if across:
+            chk.ok("C08.sepsplit", across[0], "readuntil(): besides each block, the junction of the bytes already taken and the next block is searched for the separator")
+        else:
+            chk.violation("C08.sepsplit", finds[0] if finds else ru, "self._buffer[0].find(separator, offset)", "a search across the block boundary when len(separator) > 1",
+                          "readuntil() searches each buffered block on its own: a multi-byte separator split across two feed_data() blocks (`...\\r` | `\\n...`) is never found and the line runs on to the next separator or to LineTooLong")
     # ---- wake ----------------------------------------------------------------------------------------------
     n = 0
     n += K.wakes_waiter(chk, "C08.wake", repo, fd, ["self._buffer.append($D)"], "data arrival")
@@ -165,11 +198,18 @@ def run(chk):
         chk.violation("C08.flow", rc, "self._protocol.resume_reading()", "resume in the consumption primitive", "consuming data never resumes the transport: a drained reader stays paused forever")
     else:
         cl = PC.pc(res[0][0])
-        ok_size = PC.has_lit(cl, "self._size < self._low_water", True) is not None or PC.has_lit(cl, "self._size > self._low_water", False) is not None
+        # `size < low_water`, possibly widened by `not size` (an empty buffer always resumes, also with a limit of 0)
+        ok_size = PC.has_lit(cl, "self._size < self._low_water", True) is not None or PC.has_lit(cl, "self._size > self._low_water", False) is not None \
+            or any({str(l) for l in c} == {"!(self._size)", "(self._size < self._low_water)"} for c in cl)
         ok_chunks = any(any("self._http_chunk_splits is None" in l.text and l.pos for l in c) and any("len(self._http_chunk_splits)" in l.text and "_low_water_chunks" in l.text for l in c) for c in cl)
-        extra = [c for c in cl if not (len(c) == 1 and "self._size" in next(iter(c)).text) and not (any("_http_chunk_splits" in l.text for l in c))]
-        if ok_size and ok_chunks and not extra:
-            chk.ok("C08.flow", res[0][0], "resume_reading() under `size < low_water and (no chunk marks or marks < low_water_chunks)`, nothing else")
+        extra = [c for c in cl if not all("self._size" in l.text for l in c) and not (any("_http_chunk_splits" in l.text for l in c))]
+        empty_resumes = any({str(l) for l in c} == {"!(self._size)", "(self._size < self._low_water)"} for c in cl) or PC.has_lit(cl, "self._size <= self._low_water", True) is not None
+        if ok_size and ok_chunks and not extra and not empty_resumes:
+            chk.violation("C08.flow", res[0][0], K.short(res[0][0]), "(!(self._size) | (self._size < self._low_water))",
+                          "the resume test is `size < low_water` alone: with a limit (read_bufsize) of 0 the low-water mark is 0, the test is never true, and a reader blocked on an empty buffer is left with the transport paused for good",
+                          path_condition=norm.fmt_cnf(cl))
+        elif ok_size and ok_chunks and not extra:
+            chk.ok("C08.flow", res[0][0], "resume_reading() under `(buffer empty or size < low_water) and (no chunk marks or marks < low_water_chunks)`, nothing else")
         else:
             chk.violation("C08.flow", res[0][0], K.short(res[0][0]), "(self._size < self._low_water) & (splits is None | len(splits) < low_water_chunks) only",
                           "the resume condition changed: a reader below the low-water mark may stay paused", path_condition=norm.fmt_cnf(cl))
@@ -198,6 +238,13 @@ def run(chk):
         chk.ok("C08.chunks", ap[0][0], "a chunk boundary is recorded at the producer's byte count, and only for non-empty chunks")
     else:
         chk.violation("C08.chunks", ec, "self._http_chunk_splits.append(self.total_bytes)", "!(self.total_bytes == pos)", "chunk boundaries are not recorded at the sender's positions")
+    # "empty" is judged against the last recorded boundary, which must not be read back from the queue the consumer drains
+    pd = norm.fn_defs(ec.node).defs.get("pos", [])
+    if pd and all(v is not None and "_http_chunk_splits[-1]" not in norm.raw(v) for _d, v in pd):
+        chk.ok("C08.chunks", pd[0][0], "the previous boundary is kept by the producer itself (not taken from the split queue, which readchunk() empties)")
+    else:
+        chk.violation("C08.chunks", pd[0][0] if pd else ec, "pos = self._http_chunk_splits[-1] if self._http_chunk_splits else 0", "a producer-side record of the last boundary",
+                      "the previous chunk boundary is read from the split queue: once the reader has drained the queue it looks like `no boundary yet` (0), so an empty HTTP chunk (e.g. a gzip trailer chunk) is recorded as a duplicate boundary or not depending on whether the reader was faster - readchunk() returns a spurious (b'', True)")
     rk = repo.func(MOD, f"{SR}.readchunk")
     if K.exprs(rk, "self._read_nowait(pos - self._cursor)") and K.exprs(rk, "self._http_chunk_splits.popleft()"):
         chk.ok("C08.chunks", rk, "readchunk() reads up to the next recorded boundary relative to the consumer cursor")
